@@ -1147,7 +1147,10 @@ def run(chk, ctx):
     chk.unproved = ['the numerical spectrum itself (integration, from_phi): equality of graph and program spectra is validated, not proved',
                     'the demes library (graph resolution, in_generations, discrete_demographic_events) is not modelled: the list of split / branch / merge / admix / pulse '
                     'events is an input of the model; that a frozen branch gives the spectrum of an ancient sample is validated (L3), the graph transformation is proved',
-                    'composition (loops of _get_demographic_events / _get_integration_parameters / _compute_sfs, _apply_event\'s pop_ids) is a hand-written model of translated pieces, tied by K',
+                    'the closed forms of the translated import loop (C16_source_*) hold for graphs with distinct deme names; list objects are values in the translation (the in-place '
+                    'pop_ids.pop / append of _apply_event act on a list that is read again only through pop_ids) — tied by K on the recorded calls',
+                    'C16_slice_plan is a statement per interval (every interval, every deme): that the LIST of intervals of the sliced graph is the shifted list is validated (K plan / L3 slice rows)',
+                    'C16_export_roundtrip is the complete table for 1-4 older populations at one Split record (era names as output generates them); the whole-program export is validated (L3 export)',
                     'exp/log/power in size functions are uninterpreted in the theorems; the harness evaluates the model terms with numpy',
                     'round trip through Demes.output is validated numerically; only the record table, end times and unit scalings are proved',
                     'DemesUtil.swipe is not covered (its result has several roots, which from_demes rejects)']
@@ -1183,6 +1186,7 @@ def run(chk, ctx):
         guard_generated('after the correspondence')
     timed('L3 edges', l3_edges, chk, ctx)
     timed('L3 frozen dt', PR.frozen_dt_oracle, chk, ctx, R('frozen-dt'), 4 if quick else 30)
+    timed('L3 slice rows', PR.slice_rows_oracle, chk, ctx, R('slice-rows'), 8 if quick else 80)
     timed('L3 graph', l3_graph_vs_program, chk, ctx, R('graph'), 40 if quick else 500, False, 1.0 if quick else 4.0)
     timed('L3 ancient', l3_graph_vs_program, chk, ctx, R('ancient'), 14 if quick else 200, True, 1.0 if quick else 4.0)
     timed('L3 slice', l3_slice, chk, ctx, R('slice'), 16 if quick else 240, 1.0 if quick else 4.0)
@@ -1197,7 +1201,7 @@ def replay(chk, ctx, data):
         l3_edges(chk, ctx)
     elif inp.get('kind') in ('prepare-units', 'steps-scale', 'steps-order', 'admix-axis'):
         G.replay_case(chk, ctx, inp)
-    elif inp.get('kind') in ('integrate-wiring', 'Ne-threaded', 'scale-frozen', 'frozen-dt'):
+    elif inp.get('kind') in ('integrate-wiring', 'Ne-threaded', 'scale-frozen', 'frozen-dt', 'slice-rows'):
         PR.replay_case(chk, ctx, inp)
     else:
         eval_case(chk, ctx['dadi'], inp)
